@@ -355,7 +355,7 @@ def run_live_exec(case):
             sts = []
             for i in range(case["strategies"]):
                 st = Strat(i, log, market_filter={"marketIds": [MID]}, name="s%d" % i, max_trade_count=lim.get("max_trades", 10 ** 6), max_live_trade_count=lim.get("max_live", 10 ** 6),
-                           max_order_exposure=10 ** 9, max_selection_exposure=10 ** 9, multi_order_trades=lim.get("multi", False))
+                           max_order_exposure=10 ** 9, max_selection_exposure=lim.get("max_sel", 10 ** 9), multi_order_trades=lim.get("multi", False))
                 fw.add_strategy(st); sts.append(st)
             W["packages"] = []
             fw.process_order_package = lambda p: W["packages"].append(p)
